@@ -8,6 +8,17 @@ NOTE_TRUST = ("Trusted base: TLC 1.8.0, the TLA+ module named in `technique` (co
               "property text), the Go harness' printing/comparison code, and for file-placement only Go's path.Clean.")
 
 CHECKS = {
+ "C16": dict(
+   technique="TLA+ JetSet (probe-level mechanism of getTemplate + contract HitIdentity/FailuresNeverCached/DevAlwaysReloads/"
+             "ParseNeverPuts/ExtensionOrder) model-checked by TLC over all bounded histories; TLC histories (BFS + simulation) "
+             "replayed on a real Set with fault-injecting Loader and recording Cache; random real histories trace-validated (Trace_Set)",
+   text="TLC explores every history up to the bound over lookups, Parse, loader edits/deletions and injected faults for five "
+        "(extension list, development mode) configurations and checks the contract as invariants and action properties; the "
+        "as-implemented Put-key variant is refuted at design level. Each generated history is executed on the real Set twice "
+        "(custom and default cache) comparing results, template identity, rendered version and the exact Loader/Cache call "
+        "sequence; recorded random histories from the real Set are accepted step by step by the trace specification with "
+        "the contract invariants evaluated in every state. Histories, faults and configurations are exactly the quantifier of C16.",
+   design_ref="DESIGN.md §5 C16", note=NOTE_TRUST),
  "C15": dict(
    technique="TLA+ JetPath (Canon/ProbeCalls contract) model-checked by TLC; every TLC terminal state replayed "
              "against the real Set with recording Loader+Cache; recorded random lookups trace-validated by TLC (Trace_Path)",
